@@ -12,6 +12,7 @@ use std::borrow::Cow;
 // @h c05_crc_flip | bases::assert_slice_crc twice | a block of N+4 bytes, a position, a non zero mask | a block and the same block with one byte altered are never both accepted | N = 1, 2 (thorough 3)
 // @h c05_sites | Reader::{parse_block_at,parse_block_in,cut_check,parse_data_block}; ArrayReader::new_memory_from_reader; ValueStore::finalize; <[u8;N] as Source>::{get_slice,cut}; CRC oracle | position and size of the block, oracle verdict | the result is Ok only if the oracle was asked about exactly [offset, offset+size+4) of the source and accepted; a rejection surfaces as Err(Corrupted) and nothing is parsed | 64 byte identity buffer (byte i == i identifies the range asked about)
 
+// @h c05_site | (see c05_sites) each entry point in its own harness: c05_site_parse_block, c05_site_cut_check, c05_site_array_reader, c05_site_value_store | position and size of the block, oracle verdict | Ok only if exactly [offset, offset+size+4) was verified and accepted; rejection => Err(Corrupted); parsed bytes are the verified bytes | 64 byte identity buffer
 fn crc_alg<const N: usize, const M: usize>() {
     let mut buf = [0u8; M];
     fill_any(&mut buf);
